@@ -6,6 +6,11 @@ FACETS = [("QCacheTrace.tla", "QCacheTrace.cfg", KEEP, {"send", "recv"})]
 
 
 def run(ctx):
+    import vlib
+    for cfgname in ("QCacheModel.cfg", "QCacheModel0.cfg"):
+        r = ctx.model_check("Resolver/QCacheModel.tla", cfgname, workers=8, timeout=600)
+        if r.violation:
+            raise vlib.MachineryError("QCacheModel.tla violates %s" % r.violation)
     if ctx.quick:
         gens = [{"module": "Gen_C08.tla", "cfg": "Gen_C08_quick.cfg", "name": "bfs"}]
     else:
